@@ -76,8 +76,8 @@ type mcastWorld struct {
 	w       *bufio.Writer
 	ioc     *sonic.IO
 	socks   map[int]*mcastSock
-	port    int            // shared port P
-	ports   map[int]int    // real port -> id
+	port    int         // shared port P
+	ports   map[int]int // real port -> id
 	groups  [mcastNGroups][4]byte
 	nbuf    int
 	done    map[int]string // completions not yet printed, by socket
